@@ -38,12 +38,14 @@ ASSUMPTIONS = ['values are not modelled (C02-C06 cover them); only structure',
                'numpy apply_along_axis refusing zero-length iteration axes',
                'eval is modelled for three expression shapes: N = a*2, N = a+b, N = a[0]']
 TECHNIQUE = 'Coq proof (invariant by induction over operation sequences) + vm_compute refutation witnesses + differential correspondence on random operation sequences'
-LEVEL_TEXT = ('Theorems (Props/C01.v, closed under the global context) over a structure-level Gallina model of 14 operations: every step of every '
-              'operation sequence whose renameDimensions targets are fresh, whose eval expressions keep the shape of the variable whose metadata '
-              'they inherit and whose arithmetic operands do not broadcast to a larger shape keeps the file well-formed (C01_step_wf_partial, '
-              'C01_run_wf_partial, any length, any file), keeps the unlimited flag of surviving dimensions (C01_step_unlimited_partial); without '
-              'those side conditions the statement is refuted by vm_compute witnesses replayed on the library (C01_rename_swap_refuted, '
-              'C01_eval_index_refuted, C01_binop_broadcast_refuted) = known findings. Tie H: structure after every step, incl. raises.')
+LEVEL_TEXT = ('Theorems (Props/C01.v, closed under the global context) over a structure-level Gallina model of 14 operations, describing the code '
+              'as repaired by fixes/C01-renameDimensions.patch and fixes/C01-binop-broadcast.patch: every step of every operation other than eval, '
+              'from any well-formed file, raises or returns a well-formed file with no side condition (C01_step_wf_all_but_eval: renameDimensions with '
+              'any pairs, arithmetic with any operand); with eval restricted to shape-preserving expressions the invariant holds over sequences of any '
+              'length (C01_step_wf_partial, C01_run_wf_partial, C01_trace_wf_partial); unlimited flags of surviving dimensions are kept '
+              '(C01_step_unlimited_partial, 10 of 14 operations); without the eval side condition the statement is refuted by vm_compute witnesses '
+              'replayed on the library (C01_eval_index_refuted, C01_eval_broadcast_refuted, C01_run_wf_refuted) = known finding. '
+              'Tie H: structure after every step, incl. raises.')
 LEVEL_NOTE = 'Trusted: Coq kernel + vm_compute; the correspondence harness; numpy broadcasting/slicing rules as modelled; values not modelled.'
 
 
@@ -439,7 +441,11 @@ def py_check(case, obs):
     for i in range(1, len(obs['states'])):
         a, b = obs['states'][i - 1], obs['states'][i]
         ub = {k: u for k, n, u in b['dims']}
+        ren = {}
+        if case['ops'][i - 1]['op'] == 'renamedim':      # the dimension formerly called d is now called ren[d]
+            ren = {nid(o): nid(n_) for o, n_ in case['ops'][i - 1]['pairs']}
         for k, n, u in a['dims']:
+            k = ren.get(k, k)
             if k in ub and ub[k] != u:
                 why.append('step %d (%s) changed the unlimited flag of %s' % (i, case['ops'][i - 1]['op'], NAMES[k]))
     region = 0
@@ -450,10 +456,13 @@ def py_check(case, obs):
         cur = obs['states'][n_ok]
         have = {NAMES[k] for k, n, u in cur['dims']}
         op = case['ops'][n_ok]
-        if all(d in have for d, a in op['funs']) and all(n > 0 for k, n, u in cur['dims']) and not wf_state(cur):
+        dimids = {k for k, n, u in cur['dims']}
+        # a variable named like a dimension is taken as its coordinate by the library: only the 1-D coordinate-variable convention is in domain
+        coord_ok = all(vd == [k] for k, vd, sh, m, at in cur['vars'] if k in dimids)
+        if all(d in have for d, a in op['funs']) and all(n > 0 for k, n, u in cur['dims']) and not wf_state(cur) and coord_ok:
             why.append('applyAlongDimensions(%s) raised %s' % (op['funs'], obs['raised']))
             if any(a[0] in ('scalar', 'dict') for d, a in op['funs']):
-                region = 4
+                region = 2
     return dict(s_ok=not why, why='; '.join(why), region=region)
 
 
